@@ -136,6 +136,9 @@ REGISTRIES = {
     'compound': ['MacdRsi', ('MacdRsi', [12, 26, 9], [20.0, 80.0])],
     'strategy': ['BuyAndHold'],
     'extra': [('Envelope', [0, 20], [20.0])],      # NewEnvelopeStrategy(): no registry returns it
+    # AllAndStrategies / AllSplitStrategies over (Macd, Rsi, Trix): every ordered pair of different members, in nested-loop order
+    'and': [('And:%s+%s' % (a, b), [], []) for a in ('Macd', 'Rsi', 'Trix') for b in ('Macd', 'Rsi', 'Trix') if a != b],
+    'split': [('Split:%s+%s' % (a, b), [], []) for a in ('Macd', 'Rsi', 'Trix') for b in ('Macd', 'Rsi', 'Trix') if a != b],
 }
 
 
@@ -291,7 +294,15 @@ def check_c05(res, tier, replay):
                 bad += 1
                 res.violation({'lines': [rl[i].split(' ', 1)[1]], 'problem': 'reused instance did not run: ' + g[:200]})
                 continue
-            runs = [[int(a) for a in r.split(',')] if r not in ('-', '_', '') else [] for r in g[len('ok seq='):].split(' conc=')[0].split('#')]
+            raw_runs = g[len('ok seq='):].split(' conc=')[0].split('#')
+            stuck = [r for r in raw_runs if r not in ('-', '_', '') and not re.fullmatch(r'-?\d+(,-?\d+)*', r)]
+            if stuck:
+                bad += 1
+                res.violation({'lines': [rl[i].split(' ', 1)[1]], 'problem': 'a run on the instance did not deliver its actions: ' + stuck[0][:200],
+                               'strategy': {'name': c[0], 'ns': c[1], 'fs': c[2]},
+                               'oracle': 'exactly n actions for n snapshots: the action stream must close'})
+                continue
+            runs = [[int(a) for a in r.split(',')] if r not in ('-', '_', '') else [] for r in raw_runs]
             for t, acts in enumerate(runs):
                 reused_n += 1
                 n = len(c[3][t]['c'])
